@@ -53,13 +53,13 @@ impl RecvRateSet {
     }
 
     pub fn rate_limited_update(&mut self, now_ms: u64, recv_rate: u32, rtt_ms: u64) -> u32 {
+        self.entries.retain(|e| now_ms - e.timestamp_ms < 2 * rtt_ms);
+
         self.entries.push(RecvEntry {
             value: recv_rate,
             timestamp_ms: now_ms,
             is_initial: false
         });
-
-        self.entries.retain(|e| now_ms - e.timestamp_ms < 2 * rtt_ms);
 
         return self.max();
     }
